@@ -65,6 +65,10 @@ add("C08","E2 stateright explicit-state search","model_checking",
     "A two-register machine whose transitions are the REAL Montgomery-form operations (42 forms: + - * neg square double halve by value/ref/assign/inherent/trait/multiplier-object, zero/one/new(seed), swap, select, round trip through from_montgomery(to_montgomery()), copy_montgomery_from, Const->Dyn->Boxed conversion) is explored breadth-first with stateright: the COMPLETE reachable state graph (so every finite history) for all odd moduli <= 31 (quick) / <= 255 (thorough) in MontyForm<1..4>, BoxedMontyForm and ConstMontyForm, and depth-bounded (3 / 4-5) graphs for adversarial large moduli up to 32/33 limbs. Invariant in every state: representative < m and retrieve() equals the Z/mZ reference carried in the state. Parameter sets from new / new_vartime / from_const_params / impl_modulus! must be equal and equal to their definitions.",
     ASSUME + " Large moduli: histories beyond the depth bound are not explored.", "explicit-state model checking (stateright BFS) whose next_state calls the real implementation; invariant on every reachable state", "DESIGN.md §3.C08")
 
+add("C09","E1 enum","exploration",
+    "pow / pow_bounded_exp / Pow / PowBoundedExp / MultiExponentiate(BoundedExp) (arrays and slices) / lincomb_vartime on MontyForm<1,2,4,8,16>, BoxedMontyForm and ConstMontyForm (5 macro moduli): structured moduli x bases {0,1,2,m-1,generic} x exponents {0, all-ones, 2^j, 2^j+-1 for every j, patterns} of equal and different width x EVERY exponent_bits k in 0..=BITS(exponent) for exponents of at most two limbs (window and limb boundaries otherwise), compared with BigUint::modpow(base, e mod 2^k, m); multi-exp vs the product of single powers; lincomb for EVERY term count 1..=40 x moduli with 0..=100 leading zero bits x 6 term patterns; the three implementations must agree.",
+    ASSUME + " exponent_bits is exhaustive for exponents of at most two limbs; term counts are exhaustive in 1..=40.", "bounded-exhaustive enumeration on the real code against BigUint::modpow", "DESIGN.md §3.C09")
+
 NOT_YET = {}
 ALL = [f"C{i:02d}" for i in range(1,21)]
 import os, sys
